@@ -128,3 +128,9 @@ kanirun.META["C09"] = {
     "outside": "panics (Kani has no unwinding: CellGuard on unwind, poison-ignoring locks); io::Error kinds through load_from_source (thorough only)",
     "assumptions": COMMON_ASSUME,
 }
+
+kanirun.META["C11"] = {
+    "bounds": "Directory<T>::load on one directory whose listing is any sequence of <= 3 entries from a 6-entry menu (matching file, second match, same stem with another extension, foreign extension, sub-directory, duplicate report); T with one extension, two extensions, and Arc<T>; missing directory",
+    "outside": "RecursiveDirectory, iter / iter_cached (they go through cache.load: undecidable within reach, see DESIGN); every non-memory source kind (C04); larger listings",
+    "assumptions": COMMON_ASSUME,
+}
